@@ -243,6 +243,11 @@ func (r *runner) poll(who int, d time.Duration) (event, bool) {
 	}
 }
 
+// unread puts an event back to the front of its goroutine's mailbox
+func (r *runner) unread(e event) {
+	r.mail[e.who] = append([]event{e}, r.mail[e.who]...)
+}
+
 func allStacks() string {
 	buf := make([]byte, 1<<20)
 	n := runtime.Stack(buf, true)
